@@ -34,6 +34,11 @@ PROGRAMS = [
     "SELECT sum(age) AS s, avg(age) AS m FROM users",
     "SELECT sum(price) AS s FROM items",
     "SELECT u.city AS city, sum(o.amount) AS s FROM orders AS o JOIN users AS u ON o.user_id = u.id GROUP BY u.city",
+    # several DP aggregations in one query (each is handed the whole aggregation budget; the event composes them)
+    "WITH x AS (SELECT 1 + sum(amount) AS s FROM orders), y AS (SELECT 1 + sum(age) AS t FROM users) SELECT x.s AS a, y.t AS b FROM x CROSS JOIN y",
+    "SELECT 1 + sum(amount) AS v FROM orders UNION SELECT 1 + sum(age) AS v FROM users",
+    "WITH x AS (SELECT kind, 1 + sum(amount) AS s FROM orders GROUP BY kind), y AS (SELECT kind, 1 + sum(bal) AS t FROM orders GROUP BY kind) SELECT x.kind AS k, x.s AS a, y.t AS b FROM x JOIN y ON x.kind = y.kind",
+    "WITH x AS (SELECT 1 + sum(amount) AS s, 1 + count(amount) AS n FROM orders), y AS (SELECT 1 + sum(age) AS t FROM users) SELECT x.s AS a, x.n AS n, y.t AS b FROM x CROSS JOIN y",
 ]
 PARAMS = {
     "e1": dict(epsilon=1.0, delta=1e-3),
@@ -241,17 +246,36 @@ def main():
             if mr > ma * (1 + 1e-9):
                 ck.violation("event=recorded-multiplier-larger-than-applied", "`%s` (%s): the event records noise multiplier %g, the query applies sigma / C = %g" % (sql, prm, mr, ma), rec)
                 break
-        # applied noise fits the budget handed to the aggregation (classical calibration, basic composition, delta split evenly)
-        if live:
-            Kc = len(live)
+        # applied noise fits the budget handed to ONE aggregation (classical calibration, basic composition, delta split evenly):
+        # noised columns are attributed to the aggregation (Reduce of the original relation) whose aggregate argument they are
+        # named after; a column that cannot be attributed unambiguously is judged on its own (never an alarm from the grouping)
+        oreds = [n for n in symrel.inner_nodes(ans["ok"]["original"]) if n["k"] == "Reduce"]
+        groups = {}
+        for c in live:
+            m_ = re.fullmatch(r"_(SUM|COUNT)_(.+)", c["col"])
+            cands = []
+            if m_:
+                for n in oreds:
+                    for _, e in n["aggregate"]:
+                        kinds = {"Sum": "SUM", "SumDistinct": "SUM", "Count": "COUNT", "CountDistinct": "COUNT"}
+                        want = {"SUM", "COUNT"} if e["a"] in ("Mean", "MeanDistinct", "Var", "Std") else {kinds.get(e["a"])}
+                        if e["arg"].get("e") == "Column" and e["arg"]["path"][-1] == m_.group(2) and m_.group(1) in want and n["name"] not in cands:
+                            cands.append(n["name"])
+            gid = cands[0] if len(cands) == 1 else "own:%s/%s" % (c["node"], c["col"])
+            groups.setdefault(gid, []).append(c)
+        rec["aggregations"] = {g: [c["col"] for c in cs] for g, cs in groups.items()}
+        spent = {}
+        for g, cs in groups.items():
+            Kc = len(cs)
             tot = 0.0
-            for c in live:
+            for c in cs:
                 mult_i = c["sigma"] / c["C"] if c["C"] > 0 else float("inf")
                 tot += math.sqrt(2 * math.log(1.25 / (del_a / Kc))) / mult_i
-            rec["epsilon_spent_by_applied_noise"] = tot
+            spent[g] = tot
             if tot > eps_a * (1 + 1e-6):
-                ck.violation("budget=applied-noise-exceeds-aggregation-budget", "`%s` (%s): the %d noised columns carry sigma/C = %s; with delta split evenly they spend epsilon = %g, the aggregation was handed %g" % (
-                    sql, prm, Kc, [round(c["sigma"] / c["C"], 4) for c in live], tot, eps_a), rec)
+                ck.violation("budget=applied-noise-exceeds-aggregation-budget", "`%s` (%s): the %d noised columns of aggregation %s carry sigma/C = %s; with delta split evenly they spend epsilon = %g, the aggregation was handed %g" % (
+                    sql, prm, Kc, g, [round(c["sigma"] / c["C"], 4) for c in cs], tot, eps_a), rec)
+        rec["epsilon_spent_by_applied_noise"] = spent
         # key release: recorded with at least what reproduces the tau literal
         if nodes["release"] is not None:
             tau_lit = nodes["release"][3]
